@@ -122,9 +122,9 @@ def gen(ctx, now):
         d2040 = datetime.date(2040, 12, 31).toordinal() - EPOCH
         for z in range(0, d2040 + 1):                       # every day 1970..2040
             add('fmt %d %d' % (z, rnd.randrange(86400)))
-        for z in range(d2040 + 1 + rnd.randrange(9), d2400 + 1, 9):   # then every 9th day to 2400
+        for z in range(d2040 + 1 + rnd.randrange(13), d2400 + 1, 13):   # then every 13th day to 2400
             add('fmt %d %d' % (z, rnd.randrange(86400)))
-    for y in range(1970, 10000, 1 if ctx.thorough else 5):   # one day per month to 9999 (+ leap day neighbourhood, year ends)
+    for y in range(1970, 10000, 1 if ctx.thorough else 9):   # one day per month to 9999 (+ leap day neighbourhood, year ends)
         for m in range(1, 13):
             add('fmt %d %d' % (datetime.date(y, m, rnd.randint(1, calendar.monthrange(y, m)[1])).toordinal() - EPOCH, rnd.randrange(86400)))
         for (m, dd) in ((1, 1), (2, 28), (3, 1), (12, 31)):
@@ -235,7 +235,7 @@ def run(ctx):
                        'fields, other month/day names, digit edits, inserted bytes), impossible dates x all day names, and malformed texts. Cases are '
                        'de-duplicated text lines; every case is non-trivial (a distinct time or a distinct text).'
                        % (('every day 1970..2400 at two seconds of the day', 'of every year') if ctx.thorough else
-                          ('every day 1970..2040 and every 9th day to 2400 at a random second', 'of every 5th year')))
+                          ('every day 1970..2040 and every 13th day to 2400 at a random second', 'of every 9th year')))
     ctx.assumptions += ['the driver runs with TZ=EST5EDT (DST zone) so that use of local time would be visible',
                         'a result of -1 is read as "rejected" (it is also 1969-12-31 23:59:59)',
                         'strings that denote no time (not one of the three forms, impossible date, leap second, day name contradicting the date) are not constrained, only run under ASan/UBSan',
